@@ -42,6 +42,6 @@ Proof. exact unknown_makes_status_nonzero. Qed.
 (* literals the model repeats from the source are the ones the translator extracts from the current source (gen/Tables.v) *)
 From VGen Require Import Tables.
 From VModel Require Import Rating.
-From VProofs Require Import TieProofs.
+From VProofs Require Import TieC03.
 Theorem c03_tie_unknown_text : unknown_text = src_unknown_text.
 Proof. exact tie_unknown_text. Qed.
